@@ -949,9 +949,13 @@ class SyncObj(object):
 
             # Install snapshot
             elif serialized is not None:
-                if self.__serializer.setTransmissionData(serialized):
-                    self.__loadDumpFile(clearJournal=True)
-                    self.__sendNextNodeIdx(node, success=True)
+                if not self.__serializer.setTransmissionData(serialized):
+                    # Partial snapshot: nothing of the local log was verified against the leader yet
+                    return
+                self.__loadDumpFile(clearJournal=True)
+                self.__sendNextNodeIdx(node, success=True)
+            else:
+                return
 
             if leaderCommitIndex > self.__raftCommitIndex:
                 self.__raftCommitIndex = min(leaderCommitIndex, self.__getCurrentLogIndex())
